@@ -36,6 +36,17 @@ func instant(v reflect.Value) (int64, int64) {
 
 // equalish: deep equality with nil == empty for slices and maps, instant
 // equality for times.
+// dateColumns: table struct type -> indices of the fields stored in a `date`
+// column. A date column keeps the calendar day the value shows in its own
+// location (that is what lib/pq sends and PostgreSQL reads), whatever the instant.
+var dateColumns = map[reflect.Type]map[int]bool{}
+
+func calendarDay(v reflect.Value) [3]int {
+	tm := v.Convert(timeType).Interface().(time.Time)
+	y, m, d := tm.Date()
+	return [3]int{y, int(m), d}
+}
+
 func equalish(a, b reflect.Value) bool {
 	if a.Type() != b.Type() {
 		return false
@@ -49,6 +60,12 @@ func equalish(a, b reflect.Value) bool {
 			return sa == sb && na == nb
 		}
 		for i := 0; i < t.NumField(); i++ {
+			if dateColumns[t][i] && isTimeLike(t.Field(i).Type) {
+				if calendarDay(a.Field(i)) != calendarDay(b.Field(i)) {
+					return false
+				}
+				continue
+			}
 			if !equalish(a.Field(i), b.Field(i)) {
 				return false
 			}
@@ -356,7 +373,13 @@ func (g *gen) fillColumn(fv reflect.Value, c *synth.ColumnInfo, unique bool) {
 	case "date":
 		d := g.whenSeconds()
 		y, m, dd := d.Date()
-		fv.Set(reflect.ValueOf(time.Date(y, m, dd, 0, 0, 0, 0, time.UTC)).Convert(t))
+		// a day is a day in any location: midnight, or some other hour, of a zone east or west of UTC
+		loc := kernel.Pick(g.r, []*time.Location{time.UTC, time.UTC, time.FixedZone("east", 3600), time.FixedZone("west", -8*3600), time.FixedZone("far-east", 13*3600)})
+		hour := kernel.Pick(g.r, []int{0, 0, 0, 21, 3})
+		if y <= 1 {
+			loc, hour = time.UTC, 0
+		}
+		fv.Set(reflect.ValueOf(time.Date(y, m, dd, hour, 0, 0, 0, loc)).Convert(t))
 	case "nulltime":
 		if g.r.Chance(2, 3) {
 			fv.Set(reflect.ValueOf(sql.NullTime{Time: g.whenSeconds(), Valid: true}))
